@@ -66,6 +66,10 @@ func main() {
 		cmdRsweep(os.Args[2:])
 	case "play":
 		cmdPlay(os.Args[2:])
+	case "sweep16":
+		cmdSweep16(os.Args[2:])
+	case "sweepflags":
+		cmdSweepFlags(os.Args[2:])
 	case "sweep8":
 		cmdSweep8(os.Args[2:])
 	default:
